@@ -89,8 +89,69 @@ def _snap(x):
     return (repr(x), str(x), h, tuple(map(str, getattr(x, "constraints", ()))))
 
 
+def _vsnap(v):
+    val = getattr(v, "value", None)
+    try:
+        h = hash(v)
+    except TypeError:
+        h = "unhashable"
+    # observable state only: a private memo attribute appearing on the object is not a mutation
+    return (repr(v), str(v), h, repr(val), str(val))
+
+
+def _reflect(ctx, name, pool):
+    """every public zero-argument method and property of a version and of its value object, found by reflection,
+    called twice: the version must be left as it was and the two answers must agree"""
+    import inspect
+    stream = "immutable:" + name + ":methods"
+    seen = set()
+    short = sorted(pool, key=lambda p: len(p[0]))[:4]          # the shortest texts (one-segment versions) too
+    for s, v in list(pool[:8]) + short:
+        val = getattr(v, "value", None)
+        targets = [("version", v)]
+        if val is not None and not isinstance(val, (str, bytes, int, tuple, bool)):
+            targets.append(("value", val))
+        for label, obj in targets:
+            for an in dir(obj):
+                if an.startswith("_"):
+                    continue
+                before = _vsnap(v)
+                try:
+                    a = getattr(obj, an)
+                    if callable(a):
+                        try:
+                            sig = inspect.signature(a)
+                        except (TypeError, ValueError):
+                            continue
+                        if any(p.default is p.empty and p.kind in (p.POSITIONAL_ONLY, p.POSITIONAL_OR_KEYWORD, p.KEYWORD_ONLY)
+                               for p in sig.parameters.values()):
+                            continue
+                        r1 = repr(a())
+                        r2 = repr(getattr(obj, an)())
+                    else:
+                        r1 = repr(a)
+                        r2 = repr(getattr(obj, an))
+                except Exception:  # noqa: BLE001 — what a method raises is not this property's business
+                    r1 = r2 = None
+                after = _vsnap(v)
+                key = (type(obj).__name__, an)
+                ctx.count(stream, key=key + (s,), nontrivial=key not in seen, branch=label)
+                seen.add(key)
+                why = None
+                if before != after:
+                    why = "calling %s.%s changed the version: %s -> %s" % (type(obj).__name__, an, common.short(before, 160), common.short(after, 160))
+                elif r1 != r2:
+                    why = "%s.%s answers %s and then %s" % (type(obj).__name__, an, common.short(r1, 120), common.short(r2, 120))
+                if why:
+                    ctx.disagree(stream, "%s.%s" % key, why, "unchanged", True,
+                                 {"scheme": name, "text": s, "operation": "%s.%s" % key, "clause": why},
+                                 spec="no public operation changes its arguments")
+                    return
+
+
 def _immutability(ctx, name, pool, rng):
     stream = "immutable:" + name
+    _reflect(ctx, name, pool)
     if len(pool) < 6:
         return
     vs = [v for _, v in pool[:6]]
